@@ -300,6 +300,15 @@ def r01_4(ctx):
         c = nqp_form(e)
         ctx.decide('R01.4', q, 'nqp = ' + src(e), (c == 1) if c is not None else None, node,
                    'max-degree + 1 nodes per span (exact for products of two splines)')
+    # a tensor-product routine takes the maximum over ALL its directions: the degree of one fixed direction (kvs[-1].p) under-integrates
+    # the others for mixed degrees
+    for q, e, node in sites:
+        for a in ast.walk(e):
+            if isinstance(a, ast.Attribute) and a.attr == 'p' and isinstance(a.value, ast.Subscript) and isinstance(a.value.value, ast.Name) \
+                    and a.value.value.id.startswith('kvs') and not any(isinstance(c_, ast.Call) and call_name(c_) == 'max' for c_ in ast.walk(e)):
+                ctx.violated('R01.4', q, 'nqp = ' + src(e), node,
+                             'the node count is taken from the degree of ONE direction (`%s`) of a tensor-product space: for mixed degrees '
+                             '(4, 1) the higher-degree directions get too few Gauss nodes and load vectors of polynomial data are no longer exact' % src(a))
     # all knot vectors of both spaces enter the maximum
     for q, e, node in sites:
         if 'kvs0' in src(e):
